@@ -89,6 +89,13 @@ def closures(tier: str) -> List[Dict[str, Any]]:
                                                 "SHORT_URL": "http://x.org/a:b"},
                            "message_defs": {"LS": {"id": 4530, "fields": {"a": "int32"}}}}}
     out.append({"files": defx.Program(longs).to_json()["files"], "kw": {"import_coredefs": False}, "label": "long string constants", "feats": []})
+    # user metadata of several kinds, in the root file and in an imported one
+    meta = {"root.yaml": {"imports": ["rig/meta.yaml"], "metadata": {"PROJECT": "reach-and-grasp", "SUBJECT_ID": 17, "GAIN": 2.5, "BLINDED": "true", "NOTES": "first session, left arm",
+                                                                     "zeta": 1, "alpha": 2, "Mid": 3},
+                          "message_defs": {"MM": {"id": 4550, "fields": {"a": "int32"}}}},
+            "rig/meta.yaml": {"metadata": {"RIG": "B", "RIG_REV": 4, "CAL_TAG": "cal-2024-01", "OPERATOR": "nn"}, "message_defs": {"MR": {"id": 4551, "fields": None}}}}
+    out.append({"files": defx.Program(meta).to_json()["files"], "kw": {"import_coredefs": False}, "label": "user metadata in two files", "feats": []})
+    out.append({"files": defx.Program(meta).to_json()["files"], "kw": {"import_coredefs": True}, "label": "user metadata in two files + core", "feats": []})
     seqs = c04.sequences("quick")[:: 40]
     prog, _ = c04.batch_program(seqs, 2)
     out.append({"files": prog.to_json()["files"], "kw": {}, "label": "packed C04-style program (diamond imports)", "feats": []})
@@ -135,7 +142,7 @@ def run_group(args) -> List[Dict[str, Any]]:
             probs = []
             st0, st1 = specs[0][1][str(k)], specs[1][1][str(k)]
             # (an error text may name the file, whose directory differs between the runs by construction)
-            norm = lambda t: re.sub(r"/run[01]/", "/run/", t) if isinstance(t, str) else t
+            norm = lambda t: re.sub(r"/\S+", "<path>", t) if isinstance(t, str) else t
             if norm(st0) != norm(st1):
                 probs.append({"kind": "verdict-differs-between-runs", "run0": st0, "run1": st1})
             elif st0 != "ok":
